@@ -8,7 +8,8 @@ META = {
     "explanation": "each closed form is executed symbolically with an abstract backend, differentiated, and the ODE residual / initial value are decided by the exact field normaliser (ring) or z3; real-domain side conditions by nlsat on atomised terms",
     "trusted_base": ["assumed contract 5.3: exp/sqrt/tanh of math, numpy, sympy are the same real functions with exp(a+b)=exp(a)exp(b), sqrt(x)^2=x, tanh'=1-tanh^2"],
     "not_decided": ["equality of the floating point results of math/numpy/sympy (sampled in the bounded stand-in)"],
-    "assumptions": ["time t >= 0, all rate constants, concentrations, feed parameters > 0; major > minor where the closed form divides by their difference"],
+    "assumptions": ["time t >= 0; rate constants, reactant concentrations (major, minor, r, initial_C) and the feed rate > 0; initial product and feed concentrations (prod, p, fp, fr) >= 0; major > minor where the closed form divides by their difference",
+                    "a closed form written with a function that math, numpy and sympy share but the engine has no axioms for (cosh, sinh, ...) is UNDECIDED in the symbolic harnesses, not a violation; a function that one advertised backend lacks is a violation"],
 }
 
 MOD = "chempy.kinetics.integrated"
@@ -19,16 +20,70 @@ def _bk(fn, be):
     return {"backend": be} if "backend" in inspect.signature(fn).parameters else {}
 
 
+# the parameters that are zero in the standard use (the property's 'including non-zero initial product' makes zero the base case): initial product,
+# product/reactant concentration of the feed.  They are quantified over >= 0; rate constants, reactant concentrations and the feed rate over > 0
+NONNEG = ("prod", "p", "fp", "fr")
+
+
 def P(v, names, hi=8):
-    # the proofs quantify over ALL positive parameters; the box is only where the native samples are drawn
+    # the proofs quantify over ALL positive (NONNEG: non-negative) parameters; the box is only where the native samples are drawn
     if v.symbolic:
-        return [v.real(n, pos=True) for n in names]
-    return [v.real(n, lo=0.01, hi=hi, pos=True) for n in names]
+        return [v.real(n, lo=0) if n in NONNEG else v.real(n, pos=True) for n in names]
+    return [v.real(n, lo=0, hi=hi) if n in NONNEG else v.real(n, lo=0.01, hi=hi, pos=True) for n in names]
 
 
 def Tm(v, name="t"):
     """a time t >= 0 (symbolic: any; sampled: up to 5)"""
     return v.real(name, lo=0) if v.symbolic else v.real(name, lo=0, hi=5)
+
+
+# ---- which attributes of the backend a closed form may use -----------------------------------------------------------------------------------
+# The property fixes the three advertised backends, not the set of functions a closed form is written with: a rewrite with cosh/sinh (math, numpy
+# and sympy all have them) keeps the property.  The symbolic harnesses therefore hand out, next to the names the engine's abstract backend has always
+# offered, every callable name that math, numpy AND sympy share (acosh, cosh, sinh, atan, cbrt, ...); `.backends` hands out, per advertised module, every
+# callable of that module, so that a name missing from one advertised backend (expm1 and log1p are not in sympy, arctanh not in math) still raises
+# AttributeError inside the closed form, exactly as that backend would.  A closed form that uses a shared function WITHOUT axioms cannot be
+# decided symbolically: that is reported as UNDECIDED (exit 2), not as a violation; the sampled runs of the same harness (mpmath, 40 digits) and the data
+# harnesses below still evaluate it.
+_AXIOMATISED = ("exp", "sqrt", "log", "tanh", "pow")
+
+
+def _shared_backend_names():
+    import numpy
+    import sympy
+    from pyvc.stubs import SymBackend
+    mods = (math, numpy, sympy)
+    shared = {n for n in dir(math) if not n.startswith("_") and all(callable(getattr(m, n, None)) for m in mods)}
+    return sorted(shared | set(SymBackend()._names))
+
+
+def _backend_names_of(mod):
+    """the callables a closed form finds in one advertised backend module"""
+    return [n for n in dir(mod) if not n.startswith("_") and callable(getattr(mod, n, None))]
+
+
+def _backend(v):
+    """the backend handed to a closed form in the symbolic proofs (sampled runs: mpmath with 40 digits restricted to the same names)"""
+    be = v.backend(_shared_backend_names())
+    if not v.symbolic:
+        return be
+    from pyvc.sym import Sym, Unsupported
+
+    class Shared:
+        _pyvc_symbolic = False
+
+        def __getattr__(self, name):
+            f = getattr(be, name)          # AttributeError for a name that the advertised backends do not share
+            if name in _AXIOMATISED or not callable(f):
+                return f
+
+            def g(*a, **k):
+                r = None if any(isinstance(x, Sym) for x in a) else f(*a, **k)      # be.cos(0), the spelling of a backend's 1, is a number
+                if r is None or isinstance(r, Sym):
+                    raise Unsupported("the closed form uses the backend function %r for which the engine has no axioms (5.3): not decided symbolically" % name)
+                return r
+            return g
+    return Shared()
 
 
 def _ode(name, argnames, rhs, init, nres=1, extra_req=None, tier="quick"):
@@ -42,7 +97,7 @@ def _ode(name, argnames, rhs, init, nres=1, extra_req=None, tier="quick"):
         ps = P(v, argnames)
         if extra_req:
             v.assume(extra_req(*ps))
-        be = v.backend()
+        be = _backend(v)
         d, x = v.deriv(lambda tt: v.call(fn, tt, *ps, **_bk(fn, be)), t)
         if nres == 1:
             v.prove_identity("ode", d, rhs(x, *ps), rel=1e-7, abs_=1e-9)
@@ -58,7 +113,7 @@ def _ode(name, argnames, rhs, init, nres=1, extra_req=None, tier="quick"):
         ps = P(v, argnames)
         if extra_req:
             v.assume(extra_req(*ps))
-        be = v.backend()
+        be = _backend(v)
         x0 = v.call(fn, 0, *ps, **_bk(fn, be))
         i0 = init(*ps)
         if nres == 1:
@@ -75,7 +130,7 @@ def _ode(name, argnames, rhs, init, nres=1, extra_req=None, tier="quick"):
         ps = P(v, argnames)
         if extra_req:
             v.assume(extra_req(*ps))
-        be = v.backend()
+        be = _backend(v)
         v.call(fn, t, *ps, **_bk(fn, be))
         v.prove("reached", True)
 
@@ -90,8 +145,8 @@ def _ode(name, argnames, rhs, init, nres=1, extra_req=None, tier="quick"):
         if v.symbolic:
             import numpy, sympy
             for modname, mod in (("math", math), ("numpy", numpy), ("sympy", sympy)):
-                names = [n for n in ("exp", "log", "sqrt", "tanh", "cos", "sin", "atanh", "arctanh", "log10") if hasattr(mod, n)]
-                out = v.run(fn, t, *ps, **_bk(fn, v.backend(names)))
+                # every callable of the module (not a fixed list of the names in use today): only a name that this advertised backend lacks is refused
+                out = v.run(fn, t, *ps, **_bk(fn, v.backend(_backend_names_of(mod))))
                 v.prove("evaluates_with_" + modname, out.returned, detail=repr(out.exc))
         else:
             import numpy
@@ -134,7 +189,7 @@ def _(v):
     t = Tm(v)
     k, r, p, fr, fp, fv = P(v, ["k", "r", "p", "fr", "fp", "fv"])
     n = v.real("n", lo=1, hi=4)
-    be = v.backend()
+    be = _backend(v)
     d, x = v.deriv(lambda tt: v.call(fn, tt, k, r, p, fr, fp, fv, n, backend=be), t)
     v.prove_identity("odeB", d[1], fv * (fp - x[1]) + n * k * x[0] * x[0], rel=1e-7, abs_=1e-9)
     x0 = v.call(fn, 0, k, r, p, fr, fp, fv, n, backend=be)
@@ -145,9 +200,15 @@ def _(v):
 def _(v):
     import numpy, sympy
     from chempy._util import get_backend
-    v.prove("none_is_numpy", get_backend(None) is numpy)
-    v.prove("string_imports", get_backend("sympy") is sympy and get_backend("math") is math)
-    v.prove("module_passthrough", get_backend(math) is math)
+    def holds(f):
+        try:
+            return bool(f()), ""
+        except Exception as exc:
+            return False, repr(exc)
+    for name, f in (("none_is_numpy", lambda: get_backend(None) is numpy), ("string_imports", lambda: get_backend("sympy") is sympy and get_backend("math") is math),
+                    ("module_passthrough", lambda: get_backend(math) is math)):
+        ok, detail = holds(f)
+        v.prove(name, ok, detail=detail)
 
 
 @harness("C17", "array_time_axis_not_modified", functions=["chempy.kinetics.integrated:dimerization_irrev", "chempy.kinetics.integrated:pseudo_irrev", "chempy.kinetics.integrated:pseudo_rev",
@@ -158,10 +219,21 @@ def _(v):
     axis gives the same curve, and the curve starts at the given initial state (also with the rarely used t0)"""
     import numpy as np
     from chempy.kinetics import integrated as I
-    from contracts._purity import prove_pure
+    from contracts._purity import prove_pure as _prove_pure
+
+    def prove_pure(v, name, f, make_args):
+        try:
+            return _prove_pure(v, name, f, make_args)
+        except Exception as exc:      # an exception of the closed form is a failed obligation, not a checker error
+            v.prove(name + ".inputs_not_modified", False, detail="evaluation on a numpy time axis raised %r" % (exc,))
+            return None
     t = lambda lo=0.0: (lambda: np.linspace(lo, lo + 2.0, 5))
     r = prove_pure(v, "dimerization_irrev.t0", I.dimerization_irrev, lambda: ((t(1.0)(), 0.4, 3.0), {"t0": 1.0}))
-    v.prove("dimerization_irrev.t0.starts_at_the_initial_concentration", abs(float(r[0]) - 3.0) < 1e-12 and abs(float(r[-1]) - 1 / (1 / 3.0 + 2 * 0.4 * 2.0)) < 1e-12)
+    try:
+        ok, detail = abs(float(r[0]) - 3.0) < 1e-12 and abs(float(r[-1]) - 1 / (1 / 3.0 + 2 * 0.4 * 2.0)) < 1e-12, repr(r)
+    except Exception as exc:
+        ok, detail = False, repr(exc)
+    v.prove("dimerization_irrev.t0.starts_at_the_initial_concentration", ok, detail=detail)
     prove_pure(v, "dimerization_irrev", I.dimerization_irrev, lambda: ((t()(), 0.4, 3.0), {}))
     prove_pure(v, "pseudo_irrev", I.pseudo_irrev, lambda: ((t()(), 0.3, 0.1, 2.0, 0.5), {"backend": np}))
     prove_pure(v, "pseudo_rev", I.pseudo_rev, lambda: ((t()(), 0.3, 0.2, 0.1, 2.0, 0.5), {"backend": np}))
@@ -188,122 +260,263 @@ def _(v):
     def rates_of(text_rxns, conc, extra=None, cstr=None):
         rs = ReactionSystem([Reaction(r, p, k, checks=()) for r, p, k in text_rxns], [Substance(s) for s in sorted(conc)], checks=())
         return rs.rates(dict(conc, **(extra or {})), cstr_fr_fc=cstr)
+    model_usable = {}
+
+    def rate_equations(label, written, text_rxns, conc, extra=None, cstr=None):
+        """right-hand sides for the residual: chempy's own mass-action model -- as long as that model can be evaluated and, on plain symbols, IS the rate
+        equation `written` from the property statement; otherwise the written one.  (ReactionSystem.rates is C03's territory: a regression or a change of
+        signature there is C03's to report, not eight violations of C17 with integrated.py untouched; the differentiation by sympy, which is what makes this
+        a second opinion, does not depend on it.)"""
+        if label not in model_usable:
+            plain = {sp: sympy.Symbol("c_" + sp, positive=True) for sp in conc}
+            try:
+                model, want = rates_of(text_rxns, plain, extra, cstr), written(plain)
+                model_usable[label] = all(sympy.expand(model[sp] - want[sp]) == 0 for sp in want)
+            except Exception:
+                model_usable[label] = False
+        if model_usable[label]:
+            try:
+                return rates_of(text_rxns, conc, extra, cstr)
+            except Exception:
+                model_usable[label] = False
+        return written(conc)
+
+    def small(e, bound):
+        """|e| evaluated with 60 digits is a real number <= bound (nan / zoo / an exception of the evaluation: no)"""
+        try:
+            val = abs(sympy.N(e, 60))
+            return bool(val.is_real and val.is_finite and val <= bound), str(val)[:12]
+        except Exception as exc:
+            return False, repr(exc)[:60]
 
     def check(label, build, npoints=6):
-        worst, bad = 0, []
+        bad = []
         for _ in range(npoints):
             try:
                 expr_res, expr_init, params = build()
             except Exception as exc:
                 bad.append(("evaluation with sympy symbols raised", repr(exc)[:200]))
                 break
+            scale = 1 + max(abs(sympy.N(x, 30)) for x in params)
             for e in expr_res:
                 for tt in (sympy.Rational(1, 7), sympy.Rational(13, 10), 4):
-                    val = abs(sympy.N(e.subs(t, tt), 60))
-                    scale = 1 + max(abs(sympy.N(x, 30)) for x in params)
-                    if val > sympy.Float("1e-40") * scale:
-                        bad.append((str(params)[:80], str(tt), str(val)[:12]))
+                    ok, val = small(e.subs(t, tt), sympy.Float("1e-40") * scale)
+                    if not ok:
+                        bad.append((str(params)[:80], str(tt), val))
             for e in expr_init:
-                if abs(sympy.N(e, 60)) > sympy.Float("1e-50"):
-                    bad.append(("init", str(params)[:80], str(sympy.N(e, 8))))
+                ok, val = small(e, sympy.Float("1e-50"))
+                if not ok:
+                    bad.append(("init", str(params)[:80], val))
         v.prove(label + ".rate_equation_and_start_value", not bad, detail=repr(bad[:3]))
     R = lambda lo, hi: sympy.Rational(rng.randint(int(lo * 1000), int(hi * 1000)), 1000)
 
     def dimer():
         kf, C0 = R(0.01, 8), R(0.01, 8)
         C = I.dimerization_irrev(t, kf, C0)
-        rate = rates_of([({"A": 2}, {"B": 1}, kf)], {"A": C, "B": 0})["A"]
+        rate = rate_equations("dimerization_irrev", lambda c: {"A": -2 * kf * c["A"] ** 2}, [({"A": 2}, {"B": 1}, kf)], {"A": C, "B": 0})["A"]
         return [sympy.diff(C, t) - rate], [C.subs(t, 0) - C0], (kf, C0)
     check("dimerization_irrev", dimer)
 
-    def binary(fn, rev, pseudo=False):
+    def binary(label, fn, rev, pseudo=False):
+        seen = []
+
         def build():
             kf, kb, P0, Z = R(0.01, 8), R(0.01, 8), R(0, 3), R(0.1, 4)
+            if not seen:
+                P0 = sympy.Integer(0)                          # the standard use: no product at the start (the base case of 'including non-zero initial product')
+            seen.append(1)
             Y = Z + R(0.1, 4)                                  # documented: `major` is the excess reactant
             args = (kf, kb, P0, Y, Z) if rev else (kf, P0, Y, Z)
             x = fn(t, *args, backend=sympy)
             yy, zz = (Y if pseudo else Y - (x - P0)), Z - (x - P0)      # pseudo first order: the excess reactant is not consumed
             rxns = [({"Y": 1, "Z": 1}, {"P": 1}, kf)] + ([({"P": 1}, {"Y": 1, "Z": 1}, kb)] if rev else [])
-            rate = rates_of(rxns, {"Y": yy, "Z": zz, "P": x})["P"]
+            rate = rate_equations(label, lambda c: {"P": kf * c["Y"] * c["Z"] - (kb * c["P"] if rev else 0)}, rxns, {"Y": yy, "Z": zz, "P": x})["P"]
             return [sympy.diff(x, t) - rate], [x.subs(t, 0) - P0], args
         return build
-    check("pseudo_irrev", binary(I.pseudo_irrev, False, pseudo=True))
-    check("pseudo_rev", binary(I.pseudo_rev, True, pseudo=True))
-    check("binary_irrev", binary(I.binary_irrev, False))
-    check("binary_rev", binary(I.binary_rev, True))
+    check("pseudo_irrev", binary("pseudo_irrev", I.pseudo_irrev, False, pseudo=True))
+    check("pseudo_rev", binary("pseudo_rev", I.pseudo_rev, True, pseudo=True))
+    check("binary_irrev", binary("binary_irrev", I.binary_irrev, False))
+    check("binary_rev", binary("binary_rev", I.binary_rev, True))
 
-    def cstr(fn, order, n=1):
+    def cstr(label, fn, order, n=1):
+        seen = []
+
         def build():
             k, r, p, fr, fp, fv = R(0.01, 4), R(0.01, 4), R(0, 4), R(0.01, 4), R(0, 4), R(0.01, 2)
+            if not seen:
+                p = fp = sympy.Integer(0)                      # the standard use: no product in the tank at the start and none in the feed
+            seen.append(1)
             A, B = fn(t, k, r, p, fr, fp, fv, backend=sympy) if order == 1 else fn(t, k, r, p, fr, fp, fv, n, backend=sympy)
-            rates = rates_of([({"A": order}, {"B": n}, k)], {"A": A, "B": B}, {"fv": fv, "fcA": fr, "fcB": fp}, cstr=("fv", {"A": "fcA", "B": "fcB"}))
+            written = lambda c: {"A": fv * (fr - c["A"]) - order * k * c["A"] ** order, "B": fv * (fp - c["B"]) + n * k * c["A"] ** order}
+            rates = rate_equations(label, written, [({"A": order}, {"B": n}, k)], {"A": A, "B": B}, {"fv": fv, "fcA": fr, "fcB": fp}, cstr=("fv", {"A": "fcA", "B": "fcB"}))
             return [sympy.diff(A, t) - rates["A"], sympy.diff(B, t) - rates["B"]], [A.subs(t, 0) - r, B.subs(t, 0) - p], (k, r, p, fr, fp, fv)
         return build
-    check("unary_irrev_cstr", cstr(I.unary_irrev_cstr, 1))
-    check("binary_irrev_cstr", cstr(I.binary_irrev_cstr, 2, 1))
-    check("binary_irrev_cstr_n3", cstr(I.binary_irrev_cstr, 2, 3), npoints=3)
+    check("unary_irrev_cstr", cstr("unary_irrev_cstr", I.unary_irrev_cstr, 1))
+    check("binary_irrev_cstr", cstr("binary_irrev_cstr", I.binary_irrev_cstr, 2, 1))
+    check("binary_irrev_cstr_n3", cstr("binary_irrev_cstr_n3", I.binary_irrev_cstr, 2, 3), npoints=3)
+
+
+def _start_time_inputs(v):
+    # any start time (the proofs have no box: `lo` would stay an assumption in symbolic mode), any later time
+    t0 = v.real("t0") if v.symbolic else v.real("t0", lo=-5, hi=5)
+    t = v.real("t") if v.symbolic else v.real("t", lo=-5, hi=10)
+    v.assume(t >= t0)
+    kf, C0 = P(v, ["kf", "initial_C"])
+    P0 = v.real("P0") if v.symbolic else v.real("P0", lo=0.1, hi=9)
+    return t0, t, kf, C0, P0
 
 
 @harness("C17", "dimerization_irrev.start_time", functions=[MOD + ":dimerization_irrev"], div_mode="assume", samples=10)
 def _(v):
-    """the optional start time t0 and the (unused) P0: the curve solves dC/dt = -2 kf C^2 and passes through initial_C at t = t0, whatever P0 is"""
+    """the optional start time t0 and the (unused) P0: the curve solves dC/dt = -2 kf C^2 and passes through initial_C at t = t0, whatever P0 is.
+    (independent_of_P0 asks nothing beyond that: the solution of the rate equation through (t0, initial_C) is unique, so a scalar result that keeps the
+    first two obligations for every P0 cannot depend on P0)"""
     from chempy.kinetics.integrated import dimerization_irrev as fn
-    t0 = v.real("t0", lo=-5, hi=5)
-    t = v.real("t", lo=-5, hi=10)
-    v.assume(t >= t0)
-    kf, C0 = P(v, ["kf", "initial_C"])
-    P0 = v.real("P0", lo=0.1, hi=9)
+    t0, t, kf, C0, P0 = _start_time_inputs(v)
     d, x = v.deriv(lambda tt: v.call(fn, tt, kf, C0, P0, t0), t)
     v.prove_identity("ode", d, -2 * kf * x * x, rel=1e-7, abs_=1e-9)
     v.prove_identity("passes_through_initial_C_at_t0", v.call(fn, t0, kf, C0, P0, t0), C0)
     v.prove_identity("independent_of_P0", v.call(fn, t, kf, C0, P0, t0), v.call(fn, t, kf, C0, 1, t0))
 
 
+@harness("C17", "dimerization_irrev.start_time.defined", functions=[MOD + ":dimerization_irrev"], div_mode="oblige", samples=0)
+def _(v):
+    """what the harness above assumes: with a start time the closed form has its pole at t = t0 - 1/(2 kf initial_C), before the start -- no division
+    by zero for any t >= t0 (the generated dimerization_irrev.defined has the default t0 = 0 only)"""
+    from chempy.kinetics.integrated import dimerization_irrev as fn
+    t0, t, kf, C0, P0 = _start_time_inputs(v)
+    v.call(fn, t, kf, C0, P0, t0)
+    v.prove("reached", True)
+
+
+def _start_of(name, a):
+    """the stated initial concentration(s), read off the arguments (after the time): initial_C / prod / (r, p)"""
+    if name == "dimerization_irrev":
+        return (a[1],)
+    if name in ("pseudo_irrev", "binary_irrev"):
+        return (a[1],)
+    if name in ("pseudo_rev", "binary_rev"):
+        return (a[2],)
+    return (a[1], a[2])
+
+
+def _steady_state(name, a):
+    """(steady state, slowest relaxation rate towards it) of the mechanism's rate equation -- solved from the rate equation of the property statement by hand,
+    not taken from the closed form; 60 digits on the exact values of the float arguments.  None where there is none in finite time (dimerisation: C ~ 1/(2 kf t))"""
+    import mpmath
+    with mpmath.workdps(60):
+        a = [mpmath.mpf(x) for x in a]
+        if name == "pseudo_irrev":          # 0 = kf Y (Z - (x - P0)): the minor reactant is used up
+            kf, P0, Y, Z = a
+            return (P0 + Z,), kf * Y
+        if name == "binary_irrev":          # 0 = kf (Y - xi)(Z - xi), xi = x - P0 <= Z < Y
+            kf, P0, Y, Z = a
+            return (P0 + Z,), kf * (Y - Z)
+        if name == "pseudo_rev":            # 0 = kf Y (Z + P0 - x) - kb x
+            kf, kb, P0, Y, Z = a
+            return (kf * Y * (Z + P0) / (kb + kf * Y),), kf * Y + kb
+        if name == "binary_rev":            # 0 = kf (Y - xi)(Z - xi) - kb (P0 + xi) = kf xi^2 - b xi + c: the root in (-P0, Z) is the smaller one; d(rhs)/d(xi) there = -sqrt(b^2 - 4 kf c)
+            kf, kb, P0, Y, Z = a
+            b, c = kf * (Y + Z) + kb, kf * Y * Z - kb * P0
+            disc = mpmath.sqrt(b * b - 4 * kf * c)
+            return (P0 + (b - disc) / (2 * kf),), disc
+        if name == "unary_irrev_cstr":      # 0 = fv (fr - A) - k A;  0 = fv (fp - B) + k A
+            k, r, p_, fr, fp, fv = a
+            A = fv * fr / (fv + k)
+            return (A, fp + k * A / fv), fv
+        if name == "binary_irrev_cstr":     # 0 = fv (fr - A) - 2 k A^2 (positive root);  0 = fv (fp - B) + n k A^2
+            k, r, p_, fr, fp, fv = a[:6]
+            n = a[6] if len(a) > 6 else 1
+            A = (-fv + mpmath.sqrt(fv * fv + 8 * k * fv * fr)) / (4 * k)
+            return (A, fp + n * k * A * A / fv), fv
+    return None, 0
+
+
 @harness("C17", "numeric_backends_over_the_whole_time_axis", functions=[MOD + ":dimerization_irrev", MOD + ":pseudo_irrev", MOD + ":pseudo_rev", MOD + ":binary_irrev", MOD + ":binary_rev",
                                                                        MOD + ":unary_irrev_cstr", MOD + ":binary_irrev_cstr"], kind="data")
 def _(v):
-    """'can be evaluated with each numeric or symbolic backend … and give the same values' along the whole positive time axis, not only where the
-    exponentials are moderate: from t = 1e-9 to long after completion (rate constant x time up to 1e7, far beyond exp's float range 709) the numpy
-    and math backends return finite numbers that agree with the sympy backend's 50-digit value (relative 1e-9 plus the rounding of sums of
-    terms of the concentrations' size, 1e-12 x the largest concentration among the arguments)"""
-    import math
+    """'can be evaluated with each numeric or symbolic backend … and give the same values' along the whole time axis, not only where the
+    exponentials are moderate: from t = 0 to long after completion (rate constant x time up to 1e7, far beyond exp's float range 709) the numpy
+    and math backends return finite numbers that agree with the sympy backend's 50-digit value on the same (exact) arguments (relative 1e-9 plus the
+    rounding of sums of terms of the concentrations' size, 1e-12 x the largest concentration among the arguments).  Two values on this axis are known
+    without any closed form and are compared with the float results directly: at t = 0 the stated initial concentration ('equals the stated initial
+    concentration at time zero', for the float backends), and at t = 1e7 -- where at least 60 relaxation times have passed -- the steady state of the rate
+    equation (which root / asymptote the float evaluation ends on is not said by the identities over the reals)"""
     import warnings
-    import numpy as np
     import sympy
     from chempy.kinetics import integrated as I
-    # (label, function, arguments, takes a backend, largest concentration among the arguments -- the scale of rounding errors of sums --,
+    # (label, function, arguments, largest concentration among the arguments -- the scale of rounding errors of sums --,
     #  relative tolerance: 1e-9 (+ 1e-12 x scale), or 1e-6 (+ 1e-7 x scale) where the formula is ill-conditioned in floats -- equimolar reactants with a
-    #  negligible back reaction, 1 - exp(-tiny) -- there the obligation is 'a finite number near the value', not accuracy)
-    cases = [("dimerization_irrev", I.dimerization_irrev, (2.0, 1.5), False, 1.5, 1e-9),
-             ("pseudo_irrev", I.pseudo_irrev, (2.0, 0.1, 3.0, 0.5), True, 3.0, 1e-9), ("pseudo_rev", I.pseudo_rev, (2.0, 1.0, 0.1, 3.0, 0.5), True, 3.0, 1e-9),
-             ("binary_irrev", I.binary_irrev, (2.0, 0.1, 3.0, 0.5), True, 3.0, 1e-9), ("binary_irrev_fast", I.binary_irrev, (1e10, 0.0, 1.3e-6, 3e-7), True, 1.3e-6, 1e-9),
-             ("binary_rev", I.binary_rev, (2.0, 1.0, 0.1, 3.0, 0.5), True, 3.0, 1e-9),
-             ("binary_rev_equimolar_tight", I.binary_rev, (1e10, 1e-13, 0.0, 1e-6, 1e-6), True, 1e-6, 1e-6),
-             ("binary_rev_nearly_equimolar", I.binary_rev, (1.0, 1e-17, 0.0, 1.000000001, 1.0), True, 1.0, 1e-6),
-             ("binary_rev_nearly_equimolar_with_product", I.binary_rev, (1.0, 1e-18, 0.5, 2.000000001, 2.0), True, 2.0, 1e-6),
-             ("unary_irrev_cstr", I.unary_irrev_cstr, (2.0, 1.0, 0.1, 3.0, 0.5, 1.0), True, 3.0, 1e-9), ("binary_irrev_cstr", I.binary_irrev_cstr, (2.0, 1.0, 0.1, 3.0, 0.5, 1.0), True, 3.0, 1e-9),
-             ("binary_irrev_cstr_slow_feed", I.binary_irrev_cstr, (0.5, 0.2, 0.0, 1.0, 0.25, 40.0, 3), True, 1.0, 1e-9)]
-    times = (1e-9, 1e-3, 0.3, 7.0, 100.0, 400.0, 1000.0, 1e5, 1e7)
-    ts = sympy.Symbol("t", positive=True)
-    for label, fn, args, has_backend, cscale, rtol_ in cases:
+    #  negligible back reaction, nearly equimolar reactants of the irreversible reaction (0/0 in the limit), 1 - exp(-tiny), a reaction much slower than the feed -- there the obligation is 'a finite number near the value', not accuracy)
+    cases = [("dimerization_irrev", I.dimerization_irrev, (2.0, 1.5), 1.5, 1e-9),
+             ("pseudo_irrev", I.pseudo_irrev, (2.0, 0.1, 3.0, 0.5), 3.0, 1e-9), ("pseudo_rev", I.pseudo_rev, (2.0, 1.0, 0.1, 3.0, 0.5), 3.0, 1e-9),
+             ("binary_irrev", I.binary_irrev, (2.0, 0.1, 3.0, 0.5), 3.0, 1e-9), ("binary_irrev_fast", I.binary_irrev, (1e10, 0.0, 1.3e-6, 3e-7), 1.3e-6, 1e-9),
+             ("binary_rev", I.binary_rev, (2.0, 1.0, 0.1, 3.0, 0.5), 3.0, 1e-9),
+             ("binary_rev_equimolar_tight", I.binary_rev, (1e10, 1e-13, 0.0, 1e-6, 1e-6), 1e-6, 1e-6),
+             ("binary_rev_nearly_equimolar", I.binary_rev, (1.0, 1e-17, 0.0, 1.000000001, 1.0), 1.0, 1e-6),
+             ("binary_rev_nearly_equimolar_with_product", I.binary_rev, (1.0, 1e-18, 0.5, 2.000000001, 2.0), 2.0, 1e-6),
+             ("unary_irrev_cstr", I.unary_irrev_cstr, (2.0, 1.0, 0.1, 3.0, 0.5, 1.0), 3.0, 1e-9), ("binary_irrev_cstr", I.binary_irrev_cstr, (2.0, 1.0, 0.1, 3.0, 0.5, 1.0), 3.0, 1e-9),
+             ("binary_irrev_cstr_slow_feed", I.binary_irrev_cstr, (0.5, 0.2, 0.0, 1.0, 0.25, 40.0, 3), 1.0, 1e-9),
+             # other regimes of the parameters than 'everything of order one' (rate constants from 1e-12 to 1e10, micromolar concentrations, no product at the start):
+             ("pseudo_irrev_fast", I.pseudo_irrev, (1e10, 0.0, 1e-5, 1e-6), 1e-5, 1e-9), ("pseudo_rev_tight", I.pseudo_rev, (1e10, 1e-13, 0.0, 1e-5, 1e-6), 1e-5, 1e-9),
+             ("binary_irrev_nearly_equimolar", I.binary_irrev, (1.0, 0.0, 1.000001, 1.0), 1.0, 1e-6),
+             ("unary_irrev_cstr_slow_reaction", I.unary_irrev_cstr, (1e-12, 1.0, 0.0, 1.0, 0.0, 1.0), 1.0, 1e-9), ("unary_irrev_cstr_fast_reaction", I.unary_irrev_cstr, (1e8, 1.0, 0.0, 1.0, 0.0, 1.0), 1.0, 1e-9),
+             ("unary_irrev_cstr_slow_feed", I.unary_irrev_cstr, (1.0, 1.0, 0.0, 2.0, 0.0, 1e-9), 2.0, 1e-9),
+             ("binary_irrev_cstr_fast_reaction", I.binary_irrev_cstr, (1e8, 1.0, 0.0, 1.0, 0.0, 1.0), 1.0, 1e-9), ("binary_irrev_cstr_slow_reaction", I.binary_irrev_cstr, (1e-6, 1.0, 0.0, 1.0, 0.0, 1.0), 1.0, 1e-6)]
+    times = (0.0, 1e-9, 1e-3, 0.3, 7.0, 100.0, 400.0, 1000.0, 1e5, 1e7)
+    ts = sympy.Symbol("t", nonnegative=True)
+    exact = lambda x: sympy.Rational(x)       # the exact value of the float (or int) that the numeric backends are given (nsimplify would turn 1.000000001 into 1)
+
+    def evaluate(fn, tt, args, be):
+        with warnings.catch_warnings():
+            warnings.simplefilter("ignore")
+            got = fn(tt, *args, **({"backend": be} if be is not None else {}))
+        got = got if isinstance(got, tuple) else (got,)
+        return [float(g) for g in got]
+    for label, fn, args, cscale, rtol_ in cases:
+        name = fn.__name__
+        backends = ("numpy", "math") if _bk(fn, None) else (None,)
+        near = lambda g, w: math.isfinite(g) and abs(g - float(w)) <= rtol_ * abs(float(w)) + (1e-12 if rtol_ < 1e-8 else 1e-7) * cscale
         bad = []
         try:
-            ex = fn(ts, *[sympy.nsimplify(a, rational=True) for a in args], **({"backend": sympy} if has_backend else {}))
+            ex = fn(ts, *[exact(a) for a in args], **({"backend": sympy} if _bk(fn, None) else {}))
+            ex = ex if isinstance(ex, tuple) else (ex,)
+            for tt in times:
+                want = [sympy.N(e.subs(ts, exact(tt)), 50) for e in ex]
+                if not all(w.is_real and w.is_finite for w in want):
+                    bad.append(("sympy", tt, str(want)[:60])); continue
+                for be in backends:
+                    try:
+                        got = evaluate(fn, tt, args, be)
+                    except Exception as exc:
+                        bad.append((be, tt, repr(exc)[:60])); continue
+                    bad.extend((be, tt, g, float(w)) for g, w in zip(got, want) if not near(g, w))
+                    if len(got) != len(want):
+                        bad.append((be, tt, "number of results", len(got)))
         except Exception as exc:
-            v.prove(label + ".finite_and_equal_to_the_symbolic_value", False, detail="symbolic backend: " + repr(exc)[:200])
-            continue
-        ex = ex if isinstance(ex, tuple) else (ex,)
-        for tt in times:
-            want = [sympy.N(e.subs(ts, sympy.nsimplify(tt, rational=True)), 50) for e in ex]
-            for be in (("numpy", "math") if has_backend else (None,)):
-                try:
-                    with warnings.catch_warnings():
-                        warnings.simplefilter("ignore")
-                        got = fn(tt, *args, **({"backend": be} if has_backend else {}))
-                except Exception as exc:
-                    bad.append((be, tt, repr(exc)[:60])); continue
-                got = got if isinstance(got, tuple) else (got,)
-                for g, w in zip(got, want):
-                    if not (math.isfinite(float(g)) and abs(float(g) - float(w)) <= rtol_ * abs(float(w)) + (1e-12 if rtol_ < 1e-8 else 1e-7) * cscale):
-                        bad.append((be, tt, float(g), float(w)))
+            bad.append(("symbolic backend", repr(exc)[:200]))
         v.prove(label + ".finite_and_equal_to_the_symbolic_value", not bad, detail=repr(bad[:3]))
+        # t = 0: the stated initial concentration (from the arguments)
+        bad, start = [], _start_of(name, args)
+        for be in backends:
+            try:
+                got = evaluate(fn, 0.0, args, be)
+                bad.extend((be, g, w) for g, w in zip(got, start) if not near(g, w))
+                if len(got) != len(start):
+                    bad.append((be, "number of results", len(got)))
+            except Exception as exc:
+                bad.append((be, repr(exc)[:60]))
+        v.prove(label + ".float_value_at_time_zero_is_the_stated_initial_concentration", not bad, detail=repr(bad[:3]))
+        # t = 1e7: the steady state of the rate equation, where the mechanism has relaxed by then (exp(-60) of the initial distance is left at most)
+        steady, rate = _steady_state(name, args)
+        if steady is not None and rate * times[-1] >= 60:
+            bad = []
+            for be in backends:
+                try:
+                    got = evaluate(fn, times[-1], args, be)
+                    bad.extend((be, g, float(w)) for g, w in zip(got, steady) if not near(g, w))
+                    if len(got) != len(steady):
+                        bad.append((be, "number of results", len(got)))
+                except Exception as exc:
+                    bad.append((be, repr(exc)[:60]))
+            v.prove(label + ".float_value_long_after_completion_is_the_steady_state_of_the_rate_equation", not bad, detail=repr(bad[:3]))
